@@ -240,13 +240,19 @@ def r06cdf(repo, chk):
     # the other flag: the second name in the condition that guards the insertion of push ra
     call_flags = []
     for node in ast.walk(fn):
-        if isinstance(node, ast.If) and isinstance(node.test, ast.BoolOp) and isinstance(node.test.op, ast.And) and all(isinstance(v, ast.Name) for v in node.test.values) \
+        if isinstance(node, ast.If) and isinstance(node.test, ast.BoolOp) and isinstance(node.test.op, ast.And) \
+                and any(isinstance(v, ast.Name) and v.id in ret_flags for v in node.test.values) \
                 and any(isinstance(c, ast.Call) and c.args and isinstance(c.args[0], ast.Constant) and c.args[0].value == "push" for c in ast.walk(node)):
-            call_flags = [v.id for v in node.test.values if v.id not in ret_flags]
+            call_flags = [norm(v) for v in node.test.values if not (isinstance(v, ast.Name) and v.id in ret_flags)]
     if not ret_flags or not call_flags:
         raise AnalysisError("add_ra_instructions: the flags for 'has calls' / 'has returns' were not recognised")
     # R06.i: 'this function makes calls' is read off the instruction list that is emitted
     for cf_ in call_flags:
+        if not cf_.isidentifier():
+            chk.bad("R06.i", f"compile_pass:{qual}:'makes calls' is decided by scanning the emitted instruction list",
+                    f"whether ra is saved depends on {cf_}, a value recorded somewhere else: it must be derived from the opcodes in self.code (the instructions that are emitted for this "
+                    f"function, including those spliced in from inlined callees); a side table misses a 'jal' that arrives through an inlined function", {"flag": cf_}, where)
+            continue
         defs = [st for st in ast.walk(fn) if isinstance(st, ast.Assign) and len(st.targets) == 1 and norm(st.targets[0]) == cf_]
         okc = True
         detail = []
